@@ -371,6 +371,12 @@ class C09(CheckBase):
         i = idx[(which if which is not None else rng.randrange(len(idx))) % len(idx)]
         out = list(args)
         out[i] = rng.choice([None, 'n/a', None])      # immutable wrong-typed values only: what a function does to an argument of a type it does not accept is outside the property
+        if isinstance(args[i], float) and rng.random() < 0.35:
+            # right type, impossible value: not-a-number, out of any range, sexagesimal notation with 75 minutes.
+            # Functions that validate raise ValueError / ZeroDivisionError / OverflowError half-way; the others
+            # return nan - either way the same thing every time
+            import math
+            out[i] = rng.choice([float('nan'), 1e308, -1e308, math.floor(abs(args[i])) + 0.75, math.floor(abs(args[i])) + 0.0075])
         return out, True
 
     def _cancel_trace(self, rng, kind_index, frac, kind_of_fault, follow=5):
